@@ -85,8 +85,8 @@ Definition spec_C06 (c : c06case) (obs : list Z) : bool :=
       the other, or bytes moved across the boundary of two fields (unseparated concatenation)
    2  rows of two different kinds (no kind separation in the digest)
    3  identity challenge equal to the digest of a row (raw signing oracle)
-   4  a reference whose fields fit the size bound but not together with the 64 signature bytes:
-      sign() accepts it, verify() refuses it *)
+   4  (fixed 6d1bd7f) a reference whose fields fit the size bound but not together with the 64
+      signature bytes was accepted by sign() and refused by verify() *)
 Definition known_C06_gen (Hf : list byte -> list byte) (c : c06case) : list Z :=
   match c with
   | CPair k1 r1 _ k2 r2 _ =>
@@ -98,14 +98,6 @@ Definition known_C06_gen (Hf : list byte -> list byte) (c : c06case) : list Z :=
   | COracle k r _ c =>
       match layout_of k with
       | Some l => if bytes_eqb (challenge_of Hf l r c) (Hf (enc l r)) then [3] else []
-      | None => []
-      end
-  | CRow k r _ =>
-      match layout_of k with
-      | Some l => match l_maxlen l with
-                  | Some m => if (m <? body_len l r + sig_len)%N && (body_len l r <=? m)%N then [4] else []
-                  | None => []
-                  end
       | None => []
       end
   | _ => []
